@@ -103,6 +103,7 @@ type uciSession struct {
 	lines  []string // everything the driver printed, in order
 	closed bool     // output channel closed
 	taken  int
+	goMark int // number of lines printed when the latest go was sent
 }
 
 func newUciSession(kind string, seed int64) *uciSession {
@@ -186,6 +187,11 @@ func runUciScript(kind string, seed int64, steps []string) string {
 		switch {
 		case strings.HasPrefix(st, "> ") || st == ">":
 			if !inputClosed {
+				if strings.HasPrefix(st, "> go") {
+					s.mu.Lock()
+					s.goMark = len(s.lines)
+					s.mu.Unlock()
+				}
 				select {
 				case s.in <- strings.TrimPrefix(strings.TrimPrefix(st, ">"), " "):
 				case <-time.After(3 * time.Second):
@@ -214,7 +220,10 @@ func runUciScript(kind string, seed int64, steps []string) string {
 			if f := strings.Fields(st); len(f) > 1 {
 				ms, _ = strconv.Atoi(f[1])
 			}
-			if s.waitFor(func(l []string) bool { return containsPrefix(l, "bestmove") }, time.Duration(ms)*time.Millisecond) {
+			// answered = a bestmove has been printed since the latest go (possibly before this step)
+			if s.waitFor(func(l []string) bool {
+				return containsPrefix(l, "bestmove") || (s.goMark <= len(s.lines) && containsPrefix(s.lines[s.goMark:], "bestmove"))
+			}, time.Duration(ms)*time.Millisecond) {
 				emit("answered")
 			} else {
 				emit("NO-BESTMOVE")
